@@ -12,7 +12,8 @@ RULE = ("every Bdd b is written (to_bytes/to_string, computed by the library) an
         "two-way split position, random compositions into chunks 1..11 with interruptions, and a failure (rotating ErrorKind incl. "
         "unexpected_eof, interrupted) injected at EVERY event index of a base schedule; random diagrams over 4..10 variables incl. "
         "non-canonical ones, few-node diagrams over up to 65535 variables, and chains of >65,536 nodes with random schedules; text with "
-        "ASCII whitespace inserted around separators; to_nodes/from_nodes on valid diagrams. relation: exact equality of the outcome "
+        "ASCII whitespace inserted around separators; the panicking forms from_bytes/from_string on the library's own output (and on "
+        "corrupted output: model = read + expect); to_nodes/from_nodes on valid diagrams. relation: exact equality of the outcome "
         "(OK bdd / ERR / PANIC, or (OK|ERR, bytes accepted)) with the Coq model AND with an independent Python re-implementation of the "
         "formats and of the stream semantics. non-trivial = operand/stream of >=3 nodes and (for scheduled ops) >=2 schedule events; "
         "distinct by (op, operands, schedule)")
@@ -81,6 +82,9 @@ def family(rng, b, tier, rich):
 
     both_r([], [])
     both_w([], [])
+    # the panicking forms Bdd::from_bytes / Bdd::from_string (read + expect) on the library's own output
+    prog.append(["fb", "from_bytes", "$y"])
+    prog.append(["fs", "from_string", "$s"])
     if rich:
         for c in range(1, 12):
             both_r([("C", c)] * (nb // c + 1), [("C", c)] * (nt // c + 1))
@@ -108,6 +112,16 @@ def family(rng, b, tier, rich):
                 idxs = sorted(rng.sample(range(len(base) + 1), 12))
             for i in idxs:
                 add(op, first, inject(rng, base, i, kinds[(i + j) % len(kinds)]))
+    # the panicking forms on corrupted output (a truncated stream, a stray character)
+    raw_b, raw_t = py_to_bytes(b), py_to_text(b)
+    if raw_b:
+        cnt[0] += 1
+        prog.append(["c%d" % cnt[0], "from_bytes", hexs(raw_b[:rng.randrange(len(raw_b))])])
+    if raw_t:
+        k = rng.randrange(len(raw_t))
+        bad = raw_t[:k] + rng.choice([b"x", b"-", b"|", b",", b" ", b"99999999999"]) + raw_t[k + rng.choice([0, 1]):]
+        cnt[0] += 1
+        prog.append(["c%d" % cnt[0], "from_string", hexs(bad)])
     # whitespace around separators
     for _ in range(3 if rich else 1):
         txt = ws_variant(rng, py_to_text(b))
@@ -206,6 +220,11 @@ def judge(st, V):
         b, events = bdd_nodes(call[1]), sched_of_sx(call[2])
         want = expect_write(py_to_text(b), events)
         nn = len(b)
+    elif op in ("from_bytes", "from_string"):
+        data = unhex(call[1])
+        r = expect_read_bytes(data, []) if op == "from_bytes" else expect_read_text(data, [])
+        want = r[1] if isinstance(r, list) and r[0] == "OK" else "PANIC"   # Err => expect() panics
+        nn = len(data) // 10 if op == "from_bytes" else data.count(b"|") - 1
     elif op == "to_nodes":
         b = bdd_nodes(call[1])
         want = bdd_sx(b)
